@@ -6,6 +6,7 @@ import (
 	"errors"
 	"fmt"
 	"io"
+	"os"
 	"runtime"
 	"strings"
 	"sync/atomic"
@@ -37,7 +38,20 @@ type tempErr struct{ n int }
 func (e tempErr) Error() string { return fmt.Sprintf("scripted transient error %d", e.n) }
 
 var c16Terminals = []error{io.EOF, io.ErrUnexpectedEOF, io.ErrNoProgress, io.ErrClosedPipe, io.ErrShortBuffer, syscall.EBADF,
-	errors.New("read: use of closed file"), fmt.Errorf("wrapped: %w", io.EOF)}
+	errors.New("read: use of closed file"), fmt.Errorf("wrapped: %w", io.EOF),
+	// the same ends of input as real sources report them: wrapped more than once, joined with another error, inside the
+	// os/net error structs, or recognisable only through an Is method
+	fmt.Errorf("reading capture: %w", fmt.Errorf("block 7: %w", io.EOF)),
+	errors.Join(errors.New("flush failed"), io.ErrUnexpectedEOF),
+	fmt.Errorf("%w (after %w)", io.ErrClosedPipe, errors.New("reset")),
+	&os.PathError{Op: "read", Path: "/dev/net0", Err: &os.SyscallError{Syscall: "read", Err: syscall.EBADF}},
+	c16IsEOF{}}
+
+// c16IsEOF is an error of a data source's own type that declares itself an end of input through the Is method.
+type c16IsEOF struct{}
+
+func (c16IsEOF) Error() string        { return "device detached" }
+func (c16IsEOF) Is(target error) bool { return target == io.EOF }
 
 type c16Item struct {
 	id   int // packet id, -1 for errors
